@@ -155,6 +155,7 @@ Fixpoint lists_even (e : expr) {struct e} : Prop :=
   | ENeg x | ENot x => lists_even x
   | ECall _ l | ELCall _ l | EList l => all l
   | EPList l => Nat.even (length l) = true /\ all l
+  | EObj _ _ _ => False        (* not in the token language *)
   | _ => True
   end.
 Fixpoint lists_even_all (l : list expr) : Prop := match l with [] => True | x :: r => lists_even x /\ lists_even_all r end.
@@ -261,6 +262,7 @@ Proof.
                  ltac:(pose proof (length_sizes l'); pose proof (size_pos k); pose proof (size_pos v); cbn [sizes] in Hf; lia)
                  ltac:(pose proof (size_pos k); cbn [sizes] in Hf; lia)).
       reflexivity.
+  - intros f pid x _ [].
   - intros _. constructor.
   - intros x l IHx IHl [Hx Hl]. constructor; [exact (IHx Hx) | exact (IHl Hl)].
 Qed.
